@@ -93,7 +93,7 @@ def run(ctx):
         lines = open(tr).read().splitlines()
         keep = ctx.save_replay("stress-" + v.bad.split("(")[0], {"clause": v.bad, "trace_line": v.line, "event": lines[v.line - 1][:2000]})
         ctx.violation("stress:" + v.bad, keep, "stress run: DeliveryProp clause %s broken at trace line %d: %s" % (v.bad, v.line, lines[v.line - 1][:300]))
-    for need in ("settle", "dynamic-headers", "retries-disabled", "manual-flush", "invalid-utf8-tag", "outcome:500", "outcome:connerr", "outcome:slow", "outcome:okshort"):
+    for need in ("settle", "dynamic-headers", "dynamic-header-tag-repeated", "retries-disabled", "manual-flush", "invalid-utf8-tag", "outcome:500", "outcome:connerr", "outcome:slow", "outcome:okshort"):
         if named.get(need, 0) == 0 and not (ctx.violations or locals().get("fails")):  # no vacuity verdict once something was found
             raise vlib.MachineryError("vacuity: %s never reached" % need)
     ctx.cov["named_situations"] = named
